@@ -251,3 +251,13 @@ Fixpoint kinds_of (n : gnode) : list (N * N) :=
                                      | One _ (Some c) => kinds_of c
                                      | Many _ l => flat_map kinds_of l end) slots
   end.
+
+(* shape of parsed documents that TypeInfo relies on: no Directive node below a Directive
+   node, no Argument node below an Argument node (Leave resets Directive() / Argument() to
+   nil instead of restoring them) *)
+Fixpoint ti_ok (d a : bool) (n : gnode) : bool :=
+  match n with
+  | GNode _ kind slots =>
+    negb (N.eqb kind K_DIRECTIVE && d) && negb (N.eqb kind K_ARGUMENT && a)
+    && forallb (slot_all (ti_ok (d || N.eqb kind K_DIRECTIVE) (a || N.eqb kind K_ARGUMENT))) slots
+  end.
